@@ -24,6 +24,8 @@ EXPLANATION = (
     "(R6) the API error contract for write_input is decided under C08.  Declined: content of user "
     "templates; numeric formatting of coordinates."
 )
+TECHNIQUE += '; interprocedural may-escape exception flow of write_input'
+EXPLANATION += ' Added: (R6) only FileFormatError and WriteInputError can leave api.write_input; _select_input_module fails with FileFormatError on every path.'
 TRUSTED = ["CPython ast parser", "int() truncates toward zero; round/np.round/np.rint round to nearest", "str.format(**fields) takes the last value stored under a key"]
 
 ROUNDERS = {"round", "rint", "around"}
